@@ -11,7 +11,8 @@ Contents
                           EXECUTE side (`actStep` … `transientLoop`) under `HooksGrow b h`.
   2. `AInv`, `potential` — the invariant and the measure of the async run loop; `asyncStep_measure`.
   3. `asyncDrain`       — fuel irrelevance above `potential`, no "HANG".
-  4. instrumented twins of `transientLoop` / `drainLoop` (iteration counters, cut flags).
+  4. instrumented twins of `transientLoop` (iteration counter, cut flag); those of the sync drain
+     `drainLoop` are in `Xsm/Proofs/SyncDrain.lean`.
   5. example machines for `Xsm/Properties/C13.lean`.
 -/
 namespace XSM.Term
@@ -131,8 +132,6 @@ theorem countedEnqueue_grow (e : Ev) (s : St) :
   · rename_i hr
     exact ⟨⟨[], by simp, by simp, by simp [cntSelf], fun h => absurd h hr⟩, Or.inl rfl⟩
 
-theorem hooksFlagged_grow (u : UEnv) (m : Machine) : HooksGrow false (hooksFlagged u m) :=
-  ⟨enqueue_grow, enqueue_grow⟩
 theorem hooksAsyncStart_grow (u : UEnv) (m : Machine) : HooksGrow false (hooksAsyncStart u m) :=
   ⟨enqueue_grow, enqueue_grow⟩
 theorem hooksAsync_grow (u : UEnv) (m : Machine) : HooksGrow true (hooksAsync u m) :=
@@ -803,116 +802,6 @@ theorem transientCut_false_of_steps_lt (h : Hooks) (fl : Flavor) (m : Machine) (
           simp only [hcond, if_true] at hlt
           exact ih _ (by omega)
         · rfl
-
-/-- twin of `drainLoop`: the number of queued events processed -/
-def drainSteps (m : Machine) (u : UEnv) : Nat → St → Nat
-  | 0, _ => 0
-  | budget + 1, s =>
-    match s.queue with
-    | [] => 0
-    | ⟨e, _⟩ :: rest =>
-      if s.status ≠ "running" then 0 else
-      let s := processEvent (hooksFlagged u m) .sync m u e (emit ("#recv:" ++ e.type) { s with queue := rest })
-      let s := transientLoop (hooksFlagged u m) .sync m u m.maxIterations s
-      if s.err.isSome then 1 else 1 + drainSteps m u budget s
-
-/-- twin of `drainLoop`: did the budget run out with events still queued (they are discarded)? -/
-def drainCut (m : Machine) (u : UEnv) : Nat → St → Bool
-  | 0, s => !s.queue.isEmpty
-  | budget + 1, s =>
-    match s.queue with
-    | [] => false
-    | ⟨e, _⟩ :: rest =>
-      if s.status ≠ "running" then false else
-      let s := processEvent (hooksFlagged u m) .sync m u e (emit ("#recv:" ++ e.type) { s with queue := rest })
-      let s := transientLoop (hooksFlagged u m) .sync m u m.maxIterations s
-      if s.err.isSome then false else drainCut m u budget s
-
-theorem drainSteps_le (m : Machine) (u : UEnv) : ∀ (n : Nat) (s : St), drainSteps m u n s ≤ n := by
-  intro n
-  induction n with
-  | zero => intro s; simp [drainSteps]
-  | succ n ih =>
-    intro s
-    simp only [drainSteps]
-    split
-    · omega
-    · split
-      · omega
-      · split
-        · omega
-        · rename_i e _ rest _ _ _
-          have := ih (transientLoop (hooksFlagged u m) .sync m u m.maxIterations
-            (processEvent (hooksFlagged u m) .sync m u e (emit ("#recv:" ++ e.type) { s with queue := rest })))
-          omega
-
-theorem drainLoop_queue_nil (m : Machine) (u : UEnv) (n : Nat) {s : St} (h : s.queue = []) :
-    drainLoop m u n s = s := by
-  cases n with
-  | zero => simp [drainLoop, h]
-  | succ n => simp [drainLoop, h]
-
-theorem drainLoop_fuel_mono (m : Machine) (u : UEnv) :
-    ∀ (n : Nat) (s : St), drainCut m u n s = false →
-      ∀ n', n ≤ n' → drainLoop m u n' s = drainLoop m u n s := by
-  intro n
-  induction n with
-  | zero =>
-    intro s hc n' _
-    have hq : s.queue = [] := by simpa [drainCut] using hc
-    rw [drainLoop_queue_nil m u n' hq, drainLoop_queue_nil m u 0 hq]
-  | succ n ih =>
-    intro s hc n' hn'
-    obtain ⟨n'', rfl⟩ : ∃ n'', n' = n'' + 1 := ⟨n' - 1, by omega⟩
-    simp only [drainCut] at hc
-    simp only [drainLoop]
-    split
-    · rfl
-    · rename_i e fl rest hq
-      rw [hq] at hc
-      simp only at hc
-      split
-      · rfl
-      · rename_i hr
-        simp only [hr, if_false] at hc
-        split
-        · rfl
-        · rename_i herr
-          simp only [herr, Bool.false_eq_true, if_false] at hc
-          exact ih _ hc n'' (by omega)
-
-theorem drainCut_false_of_steps_lt (m : Machine) (u : UEnv) :
-    ∀ (n : Nat) (s : St), drainSteps m u n s < n → drainCut m u n s = false := by
-  intro n
-  induction n with
-  | zero => intro s hlt; omega
-  | succ n ih =>
-    intro s hlt
-    simp only [drainSteps] at hlt
-    simp only [drainCut]
-    split
-    · rfl
-    · rename_i e fl rest hq
-      rw [hq] at hlt
-      simp only at hlt
-      split
-      · rfl
-      · rename_i hr
-        simp only [hr, if_false] at hlt
-        split
-        · rfl
-        · rename_i herr
-          simp only [herr, Bool.false_eq_true, if_false] at hlt
-          exact ih _ (by omega)
-
-/-- the cut of the sync drain only empties the queue -/
-theorem drainLoop_zero (m : Machine) (u : UEnv) (s : St) : drainLoop m u 0 s = { s with queue := [] } := by
-  simp only [drainLoop]
-  split
-  · rename_i h
-    have : s.queue = [] := by simpa using h
-    cases s; simp_all
-  · rfl
 
 /-! ## 5. nested action expansion -/
 
